@@ -53,6 +53,7 @@ type OriginCall struct {
 	Body       []byte
 	Rid        string
 	Upstream   string
+	Ctx        context.Context `json:"-"` // the request context pike hands to the upstream (carries the proxy timeout, if any)
 }
 
 // OriginResp is the scripted answer.
@@ -260,6 +261,7 @@ func (e *Env) proxy(name string, c *elton.Context) error {
 		Body:     body,
 		Rid:      req.Header.Get("X-Verif-Rid"),
 		Upstream: name,
+		Ctx:      c.Context(),
 	}
 	call.ClockBegin = vsched.PeekClock()
 	e.Log(Event{Step: call.Serial, Kind: "origin-begin", Call: call})
